@@ -98,10 +98,10 @@ Definition ex_events : list event :=
   [Stepped (1#2) (6#5); Stepped 3 (1#10); NewtonFail; Stepped (1#1000) 40; Stepped 1 (9#10); Stepped 0 1000].
 
 Example ex_adaptive_runs :
-  exists ts, adaptive_times 0 (1#8) 1 ex_events = Some ts /\ length ts = 5%nat /\ 1 <= last ts 0.
+  exists ts, adaptive_times 0 (1#8) (1#4) ex_events = Some ts /\ length ts = 5%nat /\ (1#4) <= last ts 0.
 Proof. vm_compute. eexists. split; [reflexivity|]. split; [reflexivity|]. discriminate. Qed.
 
-Example ex_adaptive_taus : (length (adaptive_taus 1 (adaptive_init 0 (1#8)) ex_events) = 6)%nat.
+Example ex_adaptive_taus : (length (adaptive_taus (1#4) (adaptive_init 0 (1#8)) ex_events) = 6)%nat.
 Proof. vm_compute. reflexivity. Qed.
 
 Example ex_adaptive_not_enough_events : adaptive_times 0 (1#8) 1 [Stepped 3 (1#10); NewtonFail] = None.
